@@ -113,6 +113,11 @@ def bt(ctx, flavours):
                 seeds_ok = False
                 seed_why.append('a path to the return at %s pushes no edge of the tree (an edge tree is never empty, so the path must not be)' % F.where(b, rbi))
                 break
+        # ... and has seeded it once: no seed push lies on the path of another
+        sbl = sorted(bi for bi, v, recv in seed_pushes if recv == path_term)
+        if len(sbl) != len(set(sbl)) or any(a != c and cfg.path_exists(a, c) for a in set(sbl) for c in set(sbl)):
+            seeds_ok = False
+            seed_why.append('the path is seeded more than once on some route (the seed edge would appear twice)')
         O('BT-seed', 'path seeded with the last (closing / target) edge of the tree', seeds_ok, '; '.join(seed_why) if seed_why else 'seed = last(tree)', main_seed)
         # scan direction and range
         is_rev = 'rev' in names
@@ -207,7 +212,11 @@ def bt(ctx, flavours):
                         for s in bb['stmts']:
                             if s['k'] == 'assign' and s['rv']['k'] == 'binop' and s['rv']['op'].startswith('Add') and ('1_usize' in [o.get('v') for o in s['rv']['ops']]):
                                 incs.append(bi)
-                    if len(incs) != 1 or not cfg.dominates(pbi, incs[0]) or cfg.path_exists(pt['target'], nbi, avoiding={incs[0]}):
+                    # push and increment belong to the same join (either statement order): both behind the join-true edge, one on the path of
+                    # the other, and no way back to the scan that skips either
+                    same_join = len(incs) == 1 and (cfg.dominates(pbi, incs[0]) or cfg.dominates(incs[0], pbi)) and te is not None and \
+                        cfg.edge_dominates(te[0], te[1], incs[0]) and not cfg.path_exists(te[1], nbi, avoiding={incs[0]}) and not cfg.path_exists(te[1], nbi, avoiding={pbi})
+                    if not same_join:
                         okj = False
                         whyj.append('cursor is not advanced exactly once per joined edge')
         O('BT-join', 'an edge is joined only when its target is the source of the last joined edge; cursor advances once per join', okj, '; '.join(whyj) if whyj else 'ok')
